@@ -304,6 +304,67 @@ Proof.
     symmetry. apply head_small. rewrite skipn_length. exact Hzone.
 Qed.
 
+(* ------------------------------------------------------------------ chunks before an edit *)
+(* two streams with the common prefix A: the reference sequences share every chunk that starts at
+   least align4 mx bytes before the end of A (and outside both tail zones) *)
+Lemma head_common_prefix : forall F (A R1 R2 : list B),
+  length (A ++ R1) <= F -> length (A ++ R2) <= F ->
+  exists pre t1 t2,
+    head F (A ++ R1) = pre ++ t1 /\ head F (A ++ R2) = pre ++ t2 /\
+    length (concat pre) <= length A /\
+    (length A - length (concat pre) < align4 mx \/
+     length (A ++ R1) - length (concat pre) < 2 * mx \/
+     length (A ++ R2) - length (concat pre) < 2 * mx).
+Proof.
+  induction F as [|F IH]; intros A R1 R2 H1 H2.
+  - exists [], [], []. cbn [Chunker.head app concat length]. pose proof mx4. repeat split; lia.
+  - destruct (Nat.lt_ge_cases (length A) (align4 mx)) as [HA|HA].
+    { exists [], (head (S F) (A ++ R1)), (head (S F) (A ++ R2)). cbn [app concat length]. repeat split; lia. }
+    destruct (Nat.lt_ge_cases (length (A ++ R1)) (2 * mx)) as [HB1|HB1].
+    { exists [], (head (S F) (A ++ R1)), (head (S F) (A ++ R2)). cbn [app concat length]. repeat split; lia. }
+    destruct (Nat.lt_ge_cases (length (A ++ R2)) (2 * mx)) as [HB2|HB2].
+    { exists [], (head (S F) (A ++ R1)), (head (S F) (A ++ R2)). cbn [app concat length]. repeat split; lia. }
+    pose proof (M4_eq mn mx Hmn Hvalid) as HM.
+    assert (Hc : ref_cut (A ++ R2) = ref_cut (A ++ R1)) by (apply ref_cut_app; rewrite HM; exact HA).
+    pose proof (ref_cut_le hash mn mx Hmn Hvalid (A ++ R1)) as Hle.
+    pose proof (align4_ge mx) as Hal.
+    set (c := ref_cut (A ++ R1)) in *.
+    assert (E1 : head (S F) (A ++ R1) = firstn c A :: head F (skipn c A ++ R1)).
+    { rewrite (head_unfold (S F) (A ++ R1) HB1 H1). fold c. rewrite firstn_app, skipn_app.
+      replace (c - length A) with 0 by lia. cbn [firstn skipn]. rewrite app_nil_r. f_equal.
+      apply (head_fuel hash mn mx Hmn Hvalid); rewrite app_length in *; rewrite ?app_length, skipn_length; lia. }
+    assert (E2 : head (S F) (A ++ R2) = firstn c A :: head F (skipn c A ++ R2)).
+    { rewrite (head_unfold (S F) (A ++ R2) HB2 H2). rewrite Hc. rewrite firstn_app, skipn_app.
+      replace (c - length A) with 0 by lia. cbn [firstn skipn]. rewrite app_nil_r. f_equal.
+      apply (head_fuel hash mn mx Hmn Hvalid); rewrite app_length in *; rewrite ?app_length, skipn_length; lia. }
+    destruct (IH (skipn c A) R1 R2) as [pre [t1 [t2 [F1 [F2 [Hlen Hend]]]]]].
+    { rewrite app_length, skipn_length. rewrite app_length in H1. lia. }
+    { rewrite app_length, skipn_length. rewrite app_length in H2. lia. }
+    exists (firstn c A :: pre), t1, t2. rewrite E1, E2, F1, F2. cbn [app concat].
+    rewrite app_length, firstn_length, Nat.min_l by lia.
+    rewrite !app_length, skipn_length in *. repeat split; lia.
+Qed.
+
+Theorem prefix_determinism (A R1 R2 : list B) pieces1 pieces2 j1 j2 :
+  concat pieces1 = A ++ R1 -> concat pieces2 = A ++ R2 ->
+  exists pre t1 t2,
+    chunkify pieces1 j1 = pre ++ t1 /\ chunkify pieces2 j2 = pre ++ t2 /\
+    length (concat pre) <= length A /\
+    (length A - length (concat pre) < align4 mx \/
+     length (A ++ R1) - length (concat pre) < 2 * mx \/
+     length (A ++ R2) - length (concat pre) < 2 * mx).
+Proof.
+  intros E1 E2.
+  destruct (head_prefix hash mn mx Hmn Hvalid pieces1 j1) as [tl1 H1].
+  destruct (head_prefix hash mn mx Hmn Hvalid pieces2 j2) as [tl2 H2].
+  rewrite E1 in H1. rewrite E2 in H2.
+  set (F := Nat.max (length (A ++ R1)) (length (A ++ R2))).
+  destruct (head_common_prefix F A R1 R2 ltac:(lia) ltac:(lia)) as [pre [t1 [t2 [F1 [F2 [Hlen Hend]]]]]].
+  rewrite (head_fuel hash mn mx Hmn Hvalid _ F (A ++ R1)) in H1 by lia.
+  rewrite (head_fuel hash mn mx Hmn Hvalid _ F (A ++ R2)) in H2 by lia.
+  exists pre, (t1 ++ tl1), (t2 ++ tl2). rewrite H1, H2, F1, F2, <- !app_assoc. repeat split; assumption.
+Qed.
+
 (* ------------------------------------------------------------------ the re-synchronisation mechanism *)
 (* a chunk of the reference sequence that starts at st, q - st a multiple of 4 in [mn, mx), ends at
    the dominant position q *)
